@@ -83,4 +83,51 @@ theorem drop_id_fails (c : Coll) : c.dropIndex "_id_" = .error .err := by
   unfold Coll.dropIndex
   simp
 
+/-! ### `Index.list` -/
+
+theorem mem_dedupIds {y : Nat} : ∀ {l : List Nat}, y ∈ dedupIds l ↔ y ∈ l
+  | [] => by simp [dedupIds]
+  | x :: r => by
+    rw [dedupIds, List.mem_cons, List.mem_cons, List.mem_filter, mem_dedupIds (l := r)]
+    by_cases h : y = x
+    · simp [h]
+    · simp [h]
+
+theorem nodup_dedupIds : ∀ l : List Nat, (dedupIds l).Nodup
+  | [] => by simp [dedupIds]
+  | x :: r => by
+    rw [dedupIds, List.nodup_cons]
+    refine ⟨?_, (List.filter_sublist).nodup (nodup_dedupIds r)⟩
+    intro h
+    have := (List.mem_filter.mp h).2
+    simp at this
+
+theorem mem_index_list {i : Index} {id : Nat} : id ∈ i.list ↔ ∃ k, (k, id) ∈ i.entries := by
+  unfold Index.list
+  rw [mem_dedupIds, List.mem_map]
+  constructor
+  · rintro ⟨⟨k, d⟩, hm, rfl⟩
+    exact ⟨k, (List.mergeSort_perm _ _).mem_iff.mp hm⟩
+  · rintro ⟨k, hm⟩
+    exact ⟨(k, id), (List.mergeSort_perm _ _).mem_iff.mpr hm, rfl⟩
+
+/-- `Index.List` lists exactly the identities of the current documents that fall under the index,
+    each once -/
+theorem index_list_exact {c : Coll} {n : String} {i : Index} (hc : Coherent sch c)
+    (hm : (n, i) ∈ c.indexes) :
+    i.list.Nodup ∧ ∀ id, id ∈ i.list ↔ ∃ sd ∈ c.docs, sd.id = id ∧ belongs sch i sd.doc := by
+  refine ⟨nodup_dedupIds _, fun id => ?_⟩
+  rw [mem_index_list]
+  have hi := hc.2 n i hm
+  constructor
+  · rintro ⟨k, hk⟩
+    obtain ⟨x, hx, hid, hb, _⟩ := hi.sound k id hk
+    exact ⟨x, hx, hid, hb⟩
+  · rintro ⟨sd, hsd, rfl, hb⟩
+    cases ht : tuples i.columns sd.doc with
+    | nil => exact absurd ht (tuples_ne_nil _ _)
+    | cons t r =>
+      obtain ⟨k, hk, _⟩ := hi.complete sd hsd hb t (by rw [ht]; simp)
+      exact ⟨k, hk⟩
+
 end Lungo
